@@ -279,4 +279,15 @@ VARIANTS = [
     {'name': 'R5 resend poll gated on is_alive again (audit C19#2 reverted)', 'file': 'hippolyzer/lib/client/hippo_client.py', 'expect': 'C19.R5', 'old': '                if not region.circuit:\n                    continue\n                region.circuit.resend_unacked()\n', 'new': '                if not region.circuit or not region.circuit.is_alive:\n                    continue\n                region.circuit.resend_unacked()\n'},
     {'name': 'P R5 resend poll skips regions without a circuit (is None spelling)', 'file': 'hippolyzer/lib/client/hippo_client.py', 'expect': 'silent', 'old': '                if not region.circuit:\n                    continue\n                region.circuit.resend_unacked()\n', 'new': '                if region.circuit is None:\n                    continue\n                region.circuit.resend_unacked()\n'},
     {'name': 'R5 resend clock back to naive local time (audit C05#3 reverted)', 'file': 'hippolyzer/lib/base/message/circuit.py', 'expect': 'C19.R5', 'old': '    return dt.datetime.now(dt.timezone.utc)\n', 'new': '    return dt.datetime.now()\n'},
+    # ------------------------------------------------------------------ audit round 2 (anchored on the fixed text: inapplicable until the fixes are committed)
+    {'name': 'R3 packet registered before it was handed to the transport (audit2 C05#1 reverted)', 'file': 'hippolyzer/lib/base/message/circuit.py', 'expect': 'C19.R3', 'old': "            packet = self._send_prepared_message(message, transport)\n            # If the message originates from us then we're responsible for resends. Only once it\n            # really went out: a packet that couldn't be serialized will never be ACKed.\n            if message.reliable and message.synthetic:\n                self.unacked_reliable[(message.direction, message.packet_id)] = ReliableResendInfo(\n                    last_resent=_utcnow(),\n                    message=message,\n                )\n            return packet\n", 'new': "            # If the message originates from us then we're responsible for resends.\n            if message.reliable and message.synthetic:\n                self.unacked_reliable[(message.direction, message.packet_id)] = ReliableResendInfo(\n                    last_resent=_utcnow(),\n                    message=message,\n                )\n            return self._send_prepared_message(message, transport)\n"},
+    {'name': 'P R3 registration after the send, entry built in a local, guard clause', 'file': 'hippolyzer/lib/base/message/circuit.py', 'expect': 'silent', 'old': "            packet = self._send_prepared_message(message, transport)\n            # If the message originates from us then we're responsible for resends. Only once it\n            # really went out: a packet that couldn't be serialized will never be ACKed.\n            if message.reliable and message.synthetic:\n                self.unacked_reliable[(message.direction, message.packet_id)] = ReliableResendInfo(\n                    last_resent=_utcnow(),\n                    message=message,\n                )\n            return packet\n", 'new': '            packet = self._send_prepared_message(message, transport)\n            if not (message.reliable and message.synthetic):\n                return packet\n            info = ReliableResendInfo(last_resent=_utcnow(), message=message)\n            self.unacked_reliable[(message.direction, message.packet_id)] = info\n            return packet\n'},
+    {'name': 'P R3 registered first, registration taken back when the send fails', 'file': 'hippolyzer/lib/base/message/circuit.py', 'expect': 'silent', 'old': "            packet = self._send_prepared_message(message, transport)\n            # If the message originates from us then we're responsible for resends. Only once it\n            # really went out: a packet that couldn't be serialized will never be ACKed.\n            if message.reliable and message.synthetic:\n                self.unacked_reliable[(message.direction, message.packet_id)] = ReliableResendInfo(\n                    last_resent=_utcnow(),\n                    message=message,\n                )\n            return packet\n", 'new': '            if message.reliable and message.synthetic:\n                self.unacked_reliable[(message.direction, message.packet_id)] = ReliableResendInfo(\n                    last_resent=_utcnow(),\n                    message=message,\n                )\n            try:\n                return self._send_prepared_message(message, transport)\n            except BaseException:\n                self.unacked_reliable.pop((message.direction, message.packet_id), None)\n                raise\n'},
+    {'name': 'R5 a failed retransmission raises through the resend timer (audit2 C05#1 reverted)', 'file': 'hippolyzer/lib/base/message/circuit.py', 'expect': 'C19.R5', 'old': '            try:\n                self._send_prepared_message(msg)\n            except Exception:\n                # One packet failing to go out mustn\'t keep the ones behind it from being resent\n                # or timed out, it gets its remaining tries like any other.\n                logging.exception(f"Failed to resend {msg.packet_id}")\n', 'new': '            self._send_prepared_message(msg)\n'},
+    {'name': "P R5 failed retransmission contained by the client's timer loop instead", 'expect': 'silent', 'edits': [{'file': 'hippolyzer/lib/base/message/circuit.py', 'old': '            try:\n                self._send_prepared_message(msg)\n            except Exception:\n                # One packet failing to go out mustn\'t keep the ones behind it from being resent\n                # or timed out, it gets its remaining tries like any other.\n                logging.exception(f"Failed to resend {msg.packet_id}")\n', 'new': '            self._send_prepared_message(msg)\n'}, {'file': 'hippolyzer/lib/client/hippo_client.py', 'old': '                region.circuit.resend_unacked()\n', 'new': '                try:\n                    region.circuit.resend_unacked()\n                except Exception:\n                    LOG.exception("Failed to resend")\n'}]},
+    {'name': "R5 failed retransmission swallowed by a handler around the client's timer loop", 'expect': 'C19.R5', 'edits': [{'file': 'hippolyzer/lib/base/message/circuit.py', 'old': '            try:\n                self._send_prepared_message(msg)\n            except Exception:\n                # One packet failing to go out mustn\'t keep the ones behind it from being resent\n                # or timed out, it gets its remaining tries like any other.\n                logging.exception(f"Failed to resend {msg.packet_id}")\n', 'new': '            self._send_prepared_message(msg)\n'}, {'file': 'hippolyzer/lib/client/hippo_client.py', 'old': '    async def _attempt_resends(self):\n        while True:\n', 'new': '    async def _attempt_resends(self):\n        try:\n            await self._resend_loop()\n        except Exception:\n            LOG.exception("Resends failed")\n\n    async def _resend_loop(self):\n        while True:\n'}]},
+    # ------------------------------------------------------------------ refactor round 8
+    {'name': 'P R3 acked ids gathered by a static helper handed the message (refac8 G2/3)', 'file': 'hippolyzer/lib/base/message/circuit.py', 'expect': 'silent', 'old': '    def collect_acks(self, message: Message):\n        effective_acks = list(message.acks)\n        if message.name == "PacketAck":\n            effective_acks.extend(x["ID"] for x in message["Packets"])\n        for ack in effective_acks:\n', 'new': '    @staticmethod\n    def _acked_ids(msg: Message) -> List[int]:\n        acked_ids = list(msg.acks)\n        if msg.name == "PacketAck":\n            acked_ids.extend(x["ID"] for x in msg["Packets"])\n        return acked_ids\n\n    def collect_acks(self, message: Message):\n        for ack in self._acked_ids(message):\n'},
+    {'name': 'R3 acked-ids helper forgets the PacketAck blocks', 'file': 'hippolyzer/lib/base/message/circuit.py', 'expect': 'C19.R3', 'old': '    def collect_acks(self, message: Message):\n        effective_acks = list(message.acks)\n        if message.name == "PacketAck":\n            effective_acks.extend(x["ID"] for x in message["Packets"])\n        for ack in effective_acks:\n', 'new': '    @staticmethod\n    def _acked_ids(msg: Message) -> List[int]:\n        acked_ids = list(msg.acks)\n        return acked_ids\n\n    def collect_acks(self, message: Message):\n        for ack in self._acked_ids(message):\n'},
+    {'name': 'R3 acked-ids helper takes the PacketAck blocks only when nothing is appended', 'file': 'hippolyzer/lib/base/message/circuit.py', 'expect': 'C19.R3', 'old': '    def collect_acks(self, message: Message):\n        effective_acks = list(message.acks)\n        if message.name == "PacketAck":\n            effective_acks.extend(x["ID"] for x in message["Packets"])\n        for ack in effective_acks:\n', 'new': '    @staticmethod\n    def _acked_ids(msg: Message) -> List[int]:\n        acked_ids = list(msg.acks)\n        if msg.name == "PacketAck" and not msg.acks:\n            acked_ids.extend(x["ID"] for x in msg["Packets"])\n        return acked_ids\n\n    def collect_acks(self, message: Message):\n        for ack in self._acked_ids(message):\n'},
 ]
